@@ -61,6 +61,7 @@ type UnitRun struct {
 	callees  map[string]bool
 	retHook  func(*State, []Val)
 	usedLemmas map[string]bool
+	extra      map[string]string // named declarations / axioms this unit needs (emitted in needOrd order)
 }
 
 type resultVar struct {
@@ -72,7 +73,8 @@ type resultVar struct {
 func newUnitRun(p *Program, u *Unit) *UnitRun {
 	r := &UnitRun{prog: p, unit: u, info: u.Pkg.TypesInfo, decls: newDecls(), needs: map[string]bool{},
 		siteOrd: map[ast.Node]int{}, loopOrd: map[ast.Stmt]int{}, retOrd: map[*ast.ReturnStmt]int{}, callOrd: map[*ast.CallExpr]int{},
-		varUnit: map[types.Object]*Unit{}, maxPaths: 4000, assumps: map[string]bool{}, paramVal: map[string]Val{}, callees: map[string]bool{}, usedLemmas: map[string]bool{}}
+		varUnit: map[types.Object]*Unit{}, maxPaths: 4000, assumps: map[string]bool{}, paramVal: map[string]Val{}, callees: map[string]bool{}, usedLemmas: map[string]bool{}, extra: map[string]string{}}
+	qcount = 0 // bound-variable names restart with every unit: query text is independent of the units processed before
 	return r
 }
 
@@ -402,6 +404,17 @@ func (r *UnitRun) toTerm(st *State, v Val, t types.Type) string {
 		st.assume(not(eq(f, "nil_Fn")))
 		v.Fn.term = f
 		r.pureClosureAxioms(st, v.Fn.unit, f)
+		if cu := v.Fn.unit; len(cu.Yields) > 0 || len(cu.Invariant) > 0 {
+			self := Val{K: KFunc, Fn: &FuncVal{term: f, typ: cu.Sig}}
+			envC := &SpecEnv{run: r, st: st, old: r.entry, bound: map[string]Val{"self": self}}
+			for _, c := range cu.Yields {
+				st.assume(r.specBool(envC, c, "yields of "+cu.Name))
+			}
+			for i, c := range cu.Invariant {
+				goal := r.specBool(envC, c, "closure invariant of "+cu.Name)
+				r.oblige(st, "closure-inv", fmt.Sprintf("%s.%d.init", cu.Name, i), goal, cu.Lit, "closure invariant established where "+cu.Name+" is created: "+c.Text, c.Tags)
+			}
+		}
 		if cu := v.Fn.unit; cu.Source != "" || cu.Target != "" {
 			gh := r.bindEdgeGhost(st, cu, f)
 			// static preconditions of an escaping closure are checked where it is created
@@ -452,10 +465,7 @@ func (r *UnitRun) coerce(st *State, v Val, sort, ctx string) string {
 		}
 	case "(Array Int Int)":
 		if v.K == KSlice {
-			if v.S.Off != "0" {
-				specFail("%s: slice with offset used as index array", ctx)
-			}
-			return r.sliceArr(st, v.S)
+			return r.zeroBased(st, v.S)
 		}
 		if v.K == KRef {
 			return v.T
@@ -529,6 +539,21 @@ func (r *UnitRun) symbolic(st *State, t types.Type, base string, own Own) Val {
 		return Val{K: KRef, T: r.fresh(base, w.sortOf(tu)), Sort: w.sortOf(tu), Go: t}
 	}
 	panic(toolLimit("symbolic: unsupported type " + t.String()))
+}
+
+// symbolicParam: an unconstrained *incoming* value (parameter, receiver, captured variable). A slice handed in is a
+// window (offset, length) into some backing array: the callee must be correct for every offset, since callers pass
+// re-sliced values (dims[1:], index[1:]) and the callee's contract is applied to them. Slices that a callee returns
+// are new windows of their own and keep offset 0 (see symbolic).
+func (r *UnitRun) symbolicParam(st *State, t types.Type, base string, own Own) Val {
+	v := r.symbolic(st, t, base, own)
+	if v.K == KSlice && v.S.Obj != nil {
+		off := r.fresh(base+"_off", "Int")
+		st.assume(sx(">=", off, "0"))
+		v.S.Off = off
+		r.addView(st, v.S, base)
+	}
+	return v
 }
 
 // zero value of a Go type
@@ -667,7 +692,46 @@ func (r *UnitRun) sliceArr(st *State, s *SliceVal) string {
 	return s.Arr
 }
 
+// addView gives a slice whose offset is not the literal 0 a zero-based view of its window.
+func (r *UnitRun) addView(st *State, s *SliceVal, base string) {
+	if s.Off == "0" || st == nil {
+		return
+	}
+	arr := r.sliceArr(st, s)
+	v := r.fresh(base+"_view", fmt.Sprintf("(Array Int %s)", s.ESrt))
+	qcount++
+	k := fmt.Sprintf("k!q%d", qcount)
+	st.assume(fmt.Sprintf("(forall ((%s Int)) (! (= (select %s %s) (select %s (+ %s %s))) :pattern ((select %s %s))))", k, v, k, arr, s.Off, k, v, k))
+	s.View = v
+	s.viewOf = arr
+}
+
+// zeroBased returns an array term holding the slice's window at positions 0..len-1 (the raw array when the offset is the
+// literal 0, otherwise a view, created on demand).
+func (r *UnitRun) zeroBased(st *State, s *SliceVal) string {
+	arr := r.sliceArr(st, s)
+	if s.Off == "0" {
+		return arr
+	}
+	if s.View != "" && s.viewOf == arr {
+		return s.View
+	}
+	if st == nil {
+		specFail("slice with a non-zero offset used as an array outside a state")
+	}
+	r.addView(st, s, "win")
+	return s.View
+}
+
 func (r *UnitRun) sliceElem(st *State, s *SliceVal, idx string) Val {
+	if s.View != "" && st != nil && r.sliceArr(st, s) == s.viewOf {
+		// the backing array has not been written since the view was taken
+		t := sx("select", s.View, idx)
+		if s.Elem != nil {
+			return r.lenFact(st, r.fromTerm(t, s.Elem))
+		}
+		return r.lenFact(st, r.valOfSort(t, s.ESrt))
+	}
 	t := sx("select", r.sliceArr(st, s), add(s.Off, idx))
 	if s.Elem != nil {
 		return r.lenFact(st, r.fromTerm(t, s.Elem))
